@@ -268,8 +268,15 @@ def run(ck, w):
             recv = {x for x in flow.origins_x(lib, sn, l_.args[0]) if x[0] == "call" and x[1].split("::")[-1] in ("next", "try_next")}
             for m_ in mutators:
                 mrecv = {x for x in flow.origins_x(lib, sn, m_.args[0]) if x[0] == "call" and x[1].split("::")[-1] in ("next", "try_next")}
-                if recv & mrecv and (sn.reaches(m_.bb, l_.bb) or m_.bb == l_.bb):
-                    shrunk.append(m_)
+                if not (recv & mrecv):
+                    continue
+                # within one iteration: from where the hunk was read, the mutator is reached before `last()`
+                srcbbs = {x[2] for x in recv & mrecv}
+                for sb_ in srcbbs:
+                    before = sn.reachable(sb_, removed_nodes={l_.bb})
+                    if m_.bb in before and (m_.bb == l_.bb or l_.bb in sn.reachable(m_.bb, removed_nodes={sb_})):
+                        shrunk.append(m_)
+                        break
         if shrunk:
             ck.fail(o, sn.name, "hunk modified before its last entry is recorded",
                     "%s is applied to the hunk before last_apath is taken from it: the resume point is no longer the last path the band recorded" % shrunk[0].name.split("::")[-1], shrunk[0].site())
@@ -413,7 +420,7 @@ def _hunk_level_cases(ck, w):
                        "if its first entry is > the resume path")
     nxt = [e for e in b.events if e.bb in b.live and e.callee == "std::iter::Iterator::next"]
     slicers = [e for e in b.events if e.bb in b.live and re.search(
-        r"binary_search|partition_point|ops::Index<.*::index$|<impl \[T\]>::(split_at|split_off|get)$|Vec::<T, A>::(split_off|drain|truncate)$", e.name)]
+        r"binary_search|partition_point|Vec::<T, A>::retain(_mut)?$|ops::Index<.*::index$|<impl \[T\]>::(split_at|split_off|get)$|Vec::<T, A>::(split_off|drain|truncate)$", e.name)]
     oks = [bb for bb, j, st in rules.agg_sites(b, "std::result::Result", "Ok")]
     if not nxt or not oks:
         ck.fail(o, b.name, "anchor-missing", "no hunk-number iteration or no Ok(entries) return in %s" % b.name)
